@@ -190,6 +190,11 @@ func Execute(t *testing.T, h Harness, plan *Plan) *Result {
 		return res
 	}
 	defer os.RemoveAll(dir)
+	// the zone of the simulated node(s), see zones.go
+	defer func(l *time.Location) { time.Local = l }(time.Local)
+	if z := Zone(plan); z != time.UTC {
+		time.Local = z
+	}
 	wall := time.Now()
 	var tape *simrt.Tape
 	func() {
@@ -225,6 +230,9 @@ func Execute(t *testing.T, h Harness, plan *Plan) *Result {
 			sim.MaxSteps = plan.C("max_steps", 400000)
 			sim.MapOrder = plan.C("maporder", 0) == 1
 			ctx := &RunCtx{Sim: sim, Plan: plan, Dir: dir, Res: res}
+			if z := Zone(plan); z != time.UTC {
+				sim.Probe("zone-" + z.String())
+			}
 			mainDone := false
 			sim.SpawnIn(0, "main", func() {
 				defer func() { sim.Stop = true }() // also when the harness panics: the run is over, not spinning to the step limit
